@@ -1022,6 +1022,20 @@ M('C07', 'canonical_form_infinite1 rescales a (shared) stored tensor in place (o
   "        self._B[i1] = self._B[i1] / np.sqrt(norm)  # correct norm again\n",
   "        self._B[i1] /= np.sqrt(norm)  # correct norm again\n", 'SITE-shared-inplace')
 
+M('C07', 'extract_enlarged_segment stores the old boundary pair (original defect)', MPS,
+  "psi_new.segment_boundaries = (U_L_new, V_R_new)", "psi_new.segment_boundaries = (U_L, V_R)", 'VALUE-dead')
+M('C05', 'speigsh dense fallback returns the unselected spectrum (original defect)', 'tenpy/tools/math.py',
+  """            W = np.linalg.eigvalsh(Amat)
+            keep = misc.argsort(W, which)[:k]
+            return W[keep]""", """            W = np.linalg.eigvalsh(Amat)
+            keep = misc.argsort(W, which)[:k]
+            return W""", 'VALUE-dead')
+M('C05', 'speigs dense fallback: selection applied directly (equivalent)', 'tenpy/tools/math.py',
+  """            W = np.linalg.eigvals(Amat)
+            keep = misc.argsort(W, which)[:k]
+            return W[keep]""", """            W = np.linalg.eigvals(Amat)
+            return W[misc.argsort(W, which)[:k]]""", None, expect='silent')
+
 # ---------------------------------------------------------------- C16 / C19
 M('C16', 'GMRES restart: relative residual norm used for normalisation (round-3 seed b)', KRY,
   """        self.total_error.append([npc.norm(self.rs[-1]) / self.b_norm])
